@@ -15,7 +15,7 @@ PROP = {
         "bounds and slice checks are all on), and on Ok the sub-file slices tile exactly the 4*lf declared bytes inside the file."),
     "outside": [
         "files longer than 52 bytes other than the lf = 32767 family (a minimal valid file is 48 bytes: accepted files are inside the bound, fonts with real tables are not)",
-        "File::from_raw_file, validate_and_fix and everything after the raw split (BTreeMap-based tables)",
+        "File::from_raw_file, validate_and_fix and everything after the raw split (BTreeMap-based tables): a harness over tfm::File::deserialize on <= 52 symbolic bytes gave no verdict in 50 min and is not registered",
         "the PL reader (pl::cst / pl::ast over text) and 'PL->TFM output is a readable TFM': text parsing over symbolic strings was not attempted - NOT decided here",
     ],
     "assumptions": [],
